@@ -8,7 +8,9 @@
 (*   kind "build":  A listing; tree = the stored tree object read back by  *)
 (*                  an independent parser; iter = iter_tree_contents       *)
 (*   kind "diff":   c = list(tree_changes(A, B, flags fl, paths))          *)
-(*   kind "rename": c = RenameDetector.changes_with_renames(A, B)          *)
+(*   kind "rename": c = RenameDetector.changes_with_renames(A, B); m =     *)
+(*                  max_files of the detector object, which may have been  *)
+(*                  used for other diffs before (step > 0)                 *)
 (*   kind "patch":  tree = commit_tree_changes(tree of A, cl) read back    *)
 (* Entries use the field names of TreeDiff; a tree entry carries the       *)
 (* nested content of the real tree object, so identity is structural.      *)
@@ -63,7 +65,9 @@ RenameVerdict(A, B, t, D0) ==
     ELSE IF t.res # "ok" THEN "rename-raised"
     ELSE IF ~RenameSound(Range(t.c), A, B) THEN "rename-sound"
     ELSE IF ~Once(t.c, FALSE) THEN "once"
-    ELSE IF Unambiguous(D0) /\ Range(t.c) # ExactRenames(D0) THEN "rename-exact"
+    \* t.m = max_files of the detector object; where the model determines the result, it is the
+    \* result of a fresh detector whatever the object was used for before
+    ELSE IF Determined0(D0, t.m) /\ Range(t.c) # Detect0({}, ExactRenames(D0), t.m, FALSE).res THEN "rename-exact"
     ELSE "ok"
 
 PatchVerdict(A, cl, t) ==
